@@ -375,11 +375,20 @@ def bisect_proof(repo, rep):
     # (a correction added after the loop would make the returned value something else than E_n)
     from ..rules import radians_of_angle
     Er = radians_of_angle(Eang)
-    ok_out = False
-    if Er is not None:
-        fac = list(Er[1:]) if Er[0] == "mul" else [Er]
-        rest = [y for y in fac if y is not best[0]]
-        ok_out = any(y is best[0] for y in fac) and all(symx.const_magnitude(y) == 1.0 or (y[0] == "phi" and all(symx.const_magnitude(l) == 1.0 for _, l in phi_leaves(y))) for y in rest)
+    def unit(y):
+        return symx.const_magnitude(y) == 1.0 or (y[0] == "phi" and all(symx.const_magnitude(l) == 1.0 for _, l in phi_leaves(y)))
+
+    def plus_minus(t, depth=0):
+        """t is +-(the iterate): the iterate itself, the iterate times factors of magnitude 1, or a selection between such terms"""
+        if t is best[0] or t == best[0]:
+            return True
+        if t[0] == "mul":
+            its = [y for y in t[1:] if y is best[0] or y == best[0]]
+            return len(its) == 1 and all(unit(y) for y in t[1:] if y is not its[0])
+        if t[0] == "phi" and depth < 4:
+            return plus_minus(t[2], depth + 1) and plus_minus(t[3], depth + 1)
+        return False
+    ok_out = Er is not None and plus_minus(Er)
     if not ok_out:
         rep.inconcl("R-BISECT", site, "the returned E is not +-(the bisection iterate): something else is applied after the loop")
         return
